@@ -11,6 +11,7 @@ EXPLANATION = (
     "(for stratum != 1 a comparison of the local addresses' reference ids with the source's *reported reference id* as "
     "well as its own id), Bloom filter does not contain our server id, and reachable; both handle_timer and "
     "process_message derive `usable` from accept_synchronization(..).is_ok() and pass it to set_usable."
+    ' In handle_timer the reachability register is shifted (reach.poll()) before the snapshot that decides usability is taken.'
 )
 NOT_DECIDED = ["that every used source has reported before the snapshot is taken (scheduling)"]
 
